@@ -402,14 +402,16 @@ type SMTCtx struct {
 	defLine  map[string]int    // defined name -> index of its line
 	sortOfTerm map[string]string // terms built through Ite: their sort (for naming)
 	named    map[string]string
+	curTag   string         // reach term of the block being executed (path slicing)
+	tagAt    map[int]string // index of an assert line -> tag it was emitted under
 }
 
 func newCtx() *SMTCtx {
-	return &SMTCtx{declared: map[string]bool{}, defs: map[string]string{}, defLine: map[string]int{}, sortOfTerm: iteSorts, named: map[string]string{}}
+	return &SMTCtx{declared: map[string]bool{}, defs: map[string]string{}, defLine: map[string]int{}, sortOfTerm: iteSorts, named: map[string]string{}, tagAt: map[int]string{}}
 }
 
 func (c *SMTCtx) clone() *SMTCtx {
-	n := &SMTCtx{lines: append([]string(nil), c.lines...), nfresh: c.nfresh, declared: map[string]bool{}, defs: c.defs, defLine: c.defLine, sortOfTerm: c.sortOfTerm, named: c.named}
+	n := &SMTCtx{lines: append([]string(nil), c.lines...), nfresh: c.nfresh, declared: map[string]bool{}, defs: c.defs, defLine: c.defLine, sortOfTerm: c.sortOfTerm, named: c.named, curTag: c.curTag, tagAt: c.tagAt}
 	for k := range c.declared {
 		n.declared[k] = true
 	}
@@ -492,6 +494,9 @@ func (c *SMTCtx) Assert(t Term) {
 			}
 			return
 		}
+	}
+	if c.curTag != "" {
+		c.tagAt[len(c.lines)] = c.curTag
 	}
 	c.lines = append(c.lines, "(assert "+t.S+")")
 }
